@@ -77,7 +77,12 @@ with the keys a and b worked.`,
 					_, isID := ast.Unparen(rs.X).(*ast.Ident)
 					if o != nil && isID && isParamOf(info, fd, o) {
 						if _, isSlice := o.Type().Underlying().(*types.Slice); isSlice {
-							s.Pass(nil, key, rs.Pos(), "the expressions are chained in the order of the slice the function receives")
+							// … and what the callers give for it is not a slice filled in the order of a Go map
+							if bad := soMapOrderedArgument(c, p, fd, o); bad != "" {
+								s.Fail(nil, key, rs.Pos(), "the -S expressions reach the chain in the order of a Go map ("+bad+" fills the slice while ranging over a map): -S 'b=1' -S 'a=annotations.b+1' evaluates a first in some runs and fails")
+								return true
+							}
+							s.Pass(nil, key, rs.Pos(), "the expressions are chained in the order of the slice the function receives, which no caller fills in map order")
 							return true
 						}
 					}
@@ -87,4 +92,62 @@ with the keys a and b worked.`,
 			})
 		},
 	})
+}
+
+
+// soMapOrderedArgument: a caller of fd (in its package) gives for the parameter o the result of a package function that appends to
+// the slice it returns inside a loop ranging over a map; returns the name of that function, or "".
+func soMapOrderedArgument(c *Ctx, p *packages.Package, fd *ast.FuncDecl, o types.Object) string {
+	info := p.TypesInfo
+	idx, k := -1, 0
+	for _, fl := range fd.Type.Params.List {
+		for _, nm := range fl.Names {
+			if info.ObjectOf(nm) == o {
+				idx = k
+			}
+			k++
+		}
+	}
+	bad := ""
+	for _, f := range p.Syntax {
+		ast.Inspect(f, func(n ast.Node) bool {
+			call, ok := n.(*ast.CallExpr)
+			if !ok || idx < 0 || idx >= len(call.Args) || callee(info, call) == nil || callee(info, call) != info.Defs[fd.Name] {
+				return true
+			}
+			src, ok := ast.Unparen(call.Args[idx]).(*ast.CallExpr)
+			if !ok {
+				return true
+			}
+			fn := callee(info, src)
+			if fn == nil {
+				return true
+			}
+			d, dp := c.DeclOf(fn)
+			if d == nil || d.Body == nil {
+				return true
+			}
+			di := dp.TypesInfo
+			ast.Inspect(d.Body, func(m ast.Node) bool {
+				rs, ok := m.(*ast.RangeStmt)
+				if !ok {
+					return true
+				}
+				if _, isMap := di.TypeOf(rs.X).Underlying().(*types.Map); !isMap {
+					return true
+				}
+				ast.Inspect(rs.Body, func(q ast.Node) bool {
+					if c2, ok := q.(*ast.CallExpr); ok {
+						if id, ok := c2.Fun.(*ast.Ident); ok && id.Name == "append" {
+							bad = fn.Name()
+						}
+					}
+					return true
+				})
+				return true
+			})
+			return true
+		})
+	}
+	return bad
 }
